@@ -165,6 +165,17 @@ fn build_add(lhs: &AstNode, rhs: &AstNode) -> Result<Evaluator> {
           value_null!("addition err 3")
         }
       }
+      Value::YearsAndMonthsDuration(lh) => {
+        if let Value::YearsAndMonthsDuration(rh) = rhv {
+          if let Some(months) = lh.as_months().checked_add(rh.as_months()) {
+            Value::YearsAndMonthsDuration(FeelYearsAndMonthsDuration::new_m(months))
+          } else {
+            value_null!("addition err 5")
+          }
+        } else {
+          value_null!("addition err 4")
+        }
+      }
       value @ Value::Null(_) => value,
       _ => value_null!("addition err"),
     }
@@ -1214,6 +1225,10 @@ fn build_neg(lhs: &AstNode) -> Result<Evaluator> {
     match lhv {
       Value::Number(lh) => Value::Number(-lh),
       Value::DaysAndTimeDuration(lh) => Value::DaysAndTimeDuration(-lh),
+      Value::YearsAndMonthsDuration(lh) => match lh.as_months().checked_neg() {
+        Some(months) => Value::YearsAndMonthsDuration(FeelYearsAndMonthsDuration::new_m(months)),
+        None => value_null!("arithmetic negation err 2"),
+      },
       _ => value_null!("arithmetic negation err 1"),
     }
   }))
